@@ -336,7 +336,12 @@ def check_plumbing(ck: Check) -> None:
         mf = 8 + min_size(ex, "skepticoin.networking.messages.MessageHeader") + min_size(ex, "skepticoin.networking.messages.Message")
         size = rv[2][0] if rv[2] else None
         construct = "selector event: read size / smallest well-formed frame (%d bytes) <= 300 nested receive() calls" % mf
-        if size is not None and size[0] == "c" and isinstance(size[1], int) and 0 < size[1] and size[1] // mf <= 300:
+        rsumm = ck.summ(MR + "receive", 0)
+        recursive = any(e.kind == "call" and MR + "receive" in e.targets for e in rsumm.events)
+        if not recursive and size is not None and size[0] == "c" and isinstance(size[1], int) and 0 < size[1] <= 1 << 24:
+            ck.ok("P8", "selector event: the read size is a positive constant (receive() drains the buffer in a loop: no nesting to bound)",
+                  "recv(%d)" % size[1], recvs[0].loc)
+        elif size is not None and size[0] == "c" and isinstance(size[1], int) and 0 < size[1] and size[1] // mf <= 300:
             ck.ok("P8", construct, "recv(%d): at most %d frames complete in one read" % (size[1], size[1] // mf), recvs[0].loc)
         else:
             ck.violated("P8", construct, "recv size is %s: a burst of small frames arriving in one read overflows the recursion of receive() and the "
